@@ -29,8 +29,12 @@ import attrs
 import common
 
 ID = "C13"
-RULE = ("cases = random argument trees (attrs instances of 7 classes incl. inherited / private / init=False / "
-        "slotted / field-less / hashable ones, list, tuple, namedtuple of 0-3 fields, set, frozenset, dict, OrderedDict, "
+RULE = ("cases = random argument trees (attrs instances of 13 classes at every position -- top level, field value, "
+        "list / tuple / set member, dict key / value --: decorated classes incl. inherited / private / init=False / "
+        "slotted / field-less / hashable ones, and classes that are attrs classes only through the MRO: a plain "
+        "behaviour-only subclass, a plain dict class over a slotted attrs class, a diamond with plain classes two levels "
+        "deep, an attrs subclass of a plain subclass, a slotted attrs class over a plain class over a slotted one, a "
+        "plain subclass of a hashable class; list, tuple, namedtuple of 0-3 fields, set, frozenset, dict, OrderedDict, "
         "int / str / None) to depth 4 (quick) or 5 (thorough), plus targeted streams (namedtuples under retain, "
         "collection / instance dict keys, instances in sets, Attribute-based filters over inherited fields, non-attrs "
         "arguments) x api in {attr.asdict, attr.astuple, attrs.asdict, attrs.astuple} x recurse x "
@@ -66,7 +70,9 @@ LEVEL_TEXT = (
     "new containers, TypeError included; on every case, no exclusion: K13a-c are repaired in attrs and the model "
     "follows the repaired code; K13a/b/c_fixed show that the former witnesses pass and that the model of the "
     "unrepaired code, kept in Proofs/C13Old.lean, fails the specification on each), "
-    "C13_sites_agree (asdict's own branches = _asdict_anything: the F10 regression as a theorem), C13_keys / "
+    "C13_sites_agree (asdict's own branches = _asdict_anything: the F10 regression as a theorem), "
+    "C13_instance_by_fields (an instance is converted by its field list = has(type(v)) through the MRO, whatever its "
+    "class, at both sites and in astuple), C13_keys / "
     "C13_keys_nested, C13_recurse_off_identity, C13_no_instances_left, C13_container_shapes(+_field), "
     "C13_fault_propagates (an exception raised by any callback makes the call raise it: nothing swallowed, no partial "
     "result; model side: call counts per callback, tied for every k), C13_callback_counts_flat, "
@@ -96,57 +102,86 @@ def _hv_hash(self):
     return self.__dict__["_hv"]
 
 
-# name, index of the base class, fields (name, attr.ib kwargs), attr.s kwargs, class body
+class Mixin:
+    """a plain class that has nothing to do with attrs (for the diamond)"""
+
+
+# name, base classes (indices into DEFS / Mixin), kind, own fields (name, attr.ib kwargs), attr.s kwargs, class body.
+# kind: "attrs" (attr.s, dict class), "define" (attrs.define, slotted, annotated), "slots" (attr.s(slots=True)),
+#       "plain" (NOT decorated: an attrs class only through what it inherits -- `has(cls)` resolves through the MRO)
 DEFS = [
-    ("A", None, [("x", {}), ("y", {})], {}, {}),
-    ("B", 0, [("z", {})], {}, {}),
-    ("P", None, [("_p", {}), ("q", {"init": False}), ("r", {"default": None})], {}, {}),
-    ("S", None, None, {}, {}),                      # attrs.define, slotted, annotated: a: int, x: object
-    ("E", None, [], {}, {}),
-    ("H", None, [("k", {}), ("x", {})], {"eq": False}, {"__hash__": _hv_hash}),
-    ("HB", 5, [("m", {})], {"eq": False}, {}),
+    ("A", (), "attrs", [("x", {}), ("y", {})], {}, {}),
+    ("B", (0,), "attrs", [("z", {})], {}, {}),
+    ("P", (), "attrs", [("_p", {}), ("q", {"init": False}), ("r", {"default": None})], {}, {}),
+    ("S", (), "define", None, {}, {}),               # a: int, x: object
+    ("E", (), "attrs", [], {}, {}),
+    ("H", (), "attrs", [("k", {}), ("x", {})], {"eq": False}, {"__hash__": _hv_hash}),
+    ("HB", (5,), "attrs", [("m", {})], {"eq": False}, {}),
+    ("AP", (0,), "plain", None, {}, {"norm": lambda self: 0}),       # behaviour-only subclass of an attrs class
+    ("SP", (3,), "plain", None, {}, {}),                             # plain dict class over a slotted attrs base
+    ("DM", (Mixin, 7), "plain", None, {}, {}),                       # diamond-ish: plain classes two levels deep
+    ("AD", (7,), "attrs", [("w", {})], {}, {}),                      # attrs subclass of a plain subclass of an attrs class
+    ("HP", (5,), "plain", None, {}, {}),                             # plain subclass of a hashable attrs class
+    ("SD", (8,), "slots", [("u", {})], {}, {}),                      # slotted attrs class over a plain dict class over a slotted one
 ]
-HASHABLE_CLS = {5, 6}
+NCLS = len(DEFS)
+HASHABLE_CLS = {5, 6, 11}
+NOT_IN_PLACE = {3, 12}      # slotted classes are new class objects: they cannot be decorated in place later
+
+
+def _ancestors(i):
+    out = set()
+    for b in DEFS[i][1]:
+        if isinstance(b, int):
+            out.add(b)
+            out |= _ancestors(b)
+    return out
 
 
 class Family:
-    """one set of the seven classes.  `late`: ids of classes that start as *plain* classes and are turned into
+    """one set of the classes.  `late`: ids of attrs classes that start as *plain* classes and are turned into
     attrs classes in place (`attr.s(these=...)(cls)`) by `decorate()` — the way to enhance a class one does not own"""
 
     def __init__(self, late=(), needed=None):
         """`needed`: ids of the classes the case instantiates (others are taken from the fixed family: cheaper)"""
-        late = set(late) - {3}                       # a slotted class is a new class object: nothing in place
+        late = {i for i in late if DEFS[i][2] == "attrs"} - NOT_IN_PLACE
         if needed is not None:
             needed = set(needed)
-            if 1 in needed:
-                needed.add(0)
-            if 6 in needed:
-                needed.add(5)
+            for i in list(needed):
+                needed |= _ancestors(i)
             late &= needed
-        if 0 in late:
-            late.add(1)                              # a subclass declared on top of a still plain base
-        if 5 in late:
-            late.add(6)
+        # an attrs class declared on top of a still plain base has to wait for it
+        for i in range(NCLS):
+            if DEFS[i][2] == "attrs" and i not in NOT_IN_PLACE and _ancestors(i) & late:
+                late.add(i)
+        if any(_ancestors(i) & late for i in NOT_IN_PLACE):
+            late = set()                             # (a slotted class cannot wait: keep the whole family early)
         self.late = sorted(late)
         self.classes = []
-        for i, (name, base, fields, ckw, body) in enumerate(DEFS):
-            bases = (self.classes[base],) if base is not None else (object,)
+        for i, (name, bases, kind, fields, ckw, body) in enumerate(DEFS):
             if needed is not None and i not in needed:
                 self.classes.append(CLASSES[i])
                 continue
-            if i == 3:
-                cls = attrs.define(type(name, bases, {"__annotations__": {"a": int, "x": object}}))
-            elif i in late:
-                cls = type(name, bases, dict(body))
+            bs = tuple(self.classes[b] if isinstance(b, int) else b for b in bases) or (object,)
+            if kind == "define":
+                cls = attrs.define(type(name, bs, {"__annotations__": {"a": int, "x": object}}))
+            elif kind == "plain" or i in late:
+                cls = type(name, bs, dict(body))
+            elif kind == "slots":
+                cls = attr.s(slots=True, **ckw)(type(name, bs, dict(body, **{f: attr.ib(**kw) for f, kw in fields})))
             else:
-                cls = attr.s(**ckw)(type(name, bases, dict(body, **{f: attr.ib(**kw) for f, kw in fields})))
+                cls = attr.s(**ckw)(type(name, bs, dict(body, **{f: attr.ib(**kw) for f, kw in fields})))
             self.classes.append(cls)
         self.cid = {c: i for i, c in enumerate(self.classes)}
         self.pending = list(self.late)
 
+    def is_raw(self, i):
+        """no usable `__init__` yet: the class or one of its ancestors is still waiting to be decorated"""
+        return bool(self.pending) and (i in self.pending or bool(_ancestors(i) & set(self.pending)))
+
     def decorate(self):
         for i in self.pending:
-            name, base, fields, ckw, body = DEFS[i]
+            name, bases, kind, fields, ckw, body = DEFS[i]
             got = attr.s(these={f: attr.ib(**kw) for f, kw in fields}, **ckw)(self.classes[i])
             if got is not self.classes[i]:
                 raise HarnessError("in-place decoration returned another class")
@@ -179,7 +214,7 @@ def _check_family(fam):
             raise HarnessError(f"family class {i} differs from the fixed family")
 
 
-_f = Family(late=range(7))
+_f = Family(late=range(NCLS))
 _f.decorate()
 _check_family(_f)
 _check_family(Family())
@@ -274,7 +309,7 @@ def build(node, reg, fam=FAMILY0):
         if names != [f["name"] for f in CLS_FIELDS[d["cls"]]]:
             raise HarnessError("instance fields do not match the class")
         kw, later = {}, []
-        raw = d["cls"] in fam.pending
+        raw = fam.is_raw(d["cls"])
         for f, v in zip(CLS_FIELDS[d["cls"]], vals):
             if f["init"] and not raw:
                 kw[f["name"].lstrip("_")] = v
@@ -551,7 +586,7 @@ def observe(case):
         if history == "fresh":               # classes created after the process has converted many other things
             fam = Family(needed=needed)
         else:                                # plain classes that become attrs classes in place after a warm-up
-            fam = Family(late=cfg.get("late", range(7)), needed=needed)
+            fam = Family(late=cfg.get("late", range(NCLS)), needed=needed)
     reg = {}
     inst = build(case["value"], reg, fam)
     if history != "fixed":
@@ -647,7 +682,7 @@ class Gen:
     def inst(self, depth, cls=None, hashable=False, nostr=False):
         rng = self.rng
         if cls is None:
-            cls = rng.choice([5, 6] if hashable else [0, 0, 1, 1, 2, 3, 4, 5, 6])
+            cls = rng.choice([5, 6, 11, 11] if hashable else [0, 0, 1, 1, 2, 3, 4, 5, 6, 7, 7, 8, 9, 10, 10, 11, 12])
         hsh = None
         if cls in HASHABLE_CLS:
             hsh = rng.randrange(0, 64)
@@ -729,8 +764,9 @@ class Gen:
 
 TYTAGS = ["int", "str", "noneType", "list", "tuple", "set", "frozenset", "dict", "odict",
           {"ntuple": {"ty": 0, "arity": 2}}, {"ntuple": {"ty": 1, "arity": 1}}, {"ntuple": {"ty": 0, "arity": 1}},
-          {"cls": {"id": 0}}, {"cls": {"id": 1}}, {"cls": {"id": 5}}, {"cls": {"id": 3}}]
-NAMES = ["x", "y", "z", "_p", "q", "r", "a", "k", "m", "p", "nope"]
+          {"cls": {"id": 0}}, {"cls": {"id": 1}}, {"cls": {"id": 5}}, {"cls": {"id": 3}}, {"cls": {"id": 7}},
+          {"cls": {"id": 7}}, {"cls": {"id": 8}}, {"cls": {"id": 10}}, {"cls": {"id": 11}}]
+NAMES = ["x", "y", "z", "_p", "q", "r", "a", "k", "m", "p", "nope", "w", "u"]
 
 
 def rand_filter(rng):
@@ -801,7 +837,7 @@ def add_fault(case, rng):
 
 
 def add_history(case, rng):
-    used = sorted(_classes_in(case["value"], set()) - {3})
+    used = sorted(i for i in _classes_in(case["value"], set()) if DEFS[i][2] == "attrs" and i not in NOT_IN_PLACE)
     r = rng.random()
     if r < 0.3 or not used:
         case["cfg"]["history"] = "fresh"
@@ -875,11 +911,11 @@ def gen_cases(tier, rng):
         if r < 0.03:
             value = g.value(1, "member")           # mostly not an attrs instance
         elif r < 0.4:
-            cls = rng.choice([0, 1, 2, 3, 5, 6])
+            cls = rng.choice([0, 1, 2, 3, 5, 6, 7, 8, 9, 10, 11, 12])
             fields = [[f, targeted(g, rng) if rng.random() < 0.6 else g.value(2, "field")] for f in CLS_FIELDS[cls]]
             value = {"inst": {"cls": cls, "hsh": rng.randrange(64) if cls in HASHABLE_CLS else None, "fields": fields}}
         elif r < 0.5:                              # flat instances (round trip)
-            cls = rng.choice([0, 1, 2, 3, 4, 5])
+            cls = rng.choice([0, 1, 2, 3, 4, 5, 7, 8, 9, 10, 12])
             fields = [[f, g.atom()] for f in CLS_FIELDS[cls]]
             value = {"inst": {"cls": cls, "hsh": rng.randrange(64) if cls in HASHABLE_CLS else None, "fields": fields}}
         else:
